@@ -113,7 +113,7 @@ PROPS["C04"] = {
 
 
 # properties whose check is not green yet are not claimed in MANIFEST.json
-NOT_YET = ["C09"]
+NOT_YET = []
 
 
 def select(pid, tier, seed):
